@@ -25,7 +25,7 @@ type C20Case struct {
 
 const rssCeilingKB = 1 << 20 // 1 GiB
 
-var c20RecShapes = []string{"direct", "mutual2", "mutual3", "match-expr", "match-block", "method-arg", "forin-body", "nested-statements", "heavy-expression", "runaway", "runaway-mutual", "runaway-match", "runaway-heavy-binary", "runaway-heavy-unary", "runaway-heavy-statements"}
+var c20RecShapes = []string{"direct", "mutual2", "mutual3", "match-expr", "match-block", "method-arg", "forin-body", "nested-statements", "heavy-expression", "runaway", "runaway-mutual", "runaway-match", "runaway-heavy-binary", "runaway-heavy-unary", "runaway-heavy-statements", "runaway-match-odd", "runaway-match-block-odd"}
 
 func c20Program(c *C20Case) (prog string, input string, expect string) {
 	n := c.N
@@ -59,6 +59,12 @@ func c20Program(c *C20Case) (prog string, input string, expect string) {
 			return "function f(n) { return " + strings.Repeat("!", 120) + "f(n + 1) }\n" + pre + "print f(0) }", "", "REFUSED"
 		case "runaway-heavy-statements":
 			return "function f(n) { " + strings.Repeat("if (true) { ", 150) + "return f(n + 1)" + strings.Repeat(" }", 150) + " }\n" + pre + "print f(0) }", "", "REFUSED"
+		case "runaway-match-odd":
+			// the same through one more call: the frame that crosses the limit is then a match
+			// case's frame instead of a call's (or the other way round)
+			return "function f(n) { return match (n) { k => f([k]) } }\nfunction g() { return f(0) }\n" + pre + "print g() }", "", "REFUSED"
+		case "runaway-match-block-odd":
+			return "function f(n) { match (n) { k => { return f(k + 1) } } }\nfunction g() { return f(0) }\nfunction h() { return g() }\n" + pre + "print f(0), g(), h() }", "", "REFUSED"
 		case "runaway":
 			return "function f(n) { return f(n + 1) }\n" + pre + "print f(0) }", "", "REFUSED"
 		case "runaway-mutual":
@@ -265,8 +271,9 @@ func c20Ladders(thorough bool) []c20Ladder {
 	ls = append(ls, c20Ladder{"index", "write-input-index", []string{"1000", "1048577", "2000000", "1e18", "1e300"}, []string{"1000"}, []string{"2000000", "1e18", "1e300"}})
 	ls = append(ls, c20Ladder{"index", "read-existing", []string{"2", "3", "1000", "2000000", "1000000000000000000"}, []string{"2"}, nil})
 	for _, sh := range []string{"s", "f", "v"} {
-		ls = append(ls, c20Ladder{"width", sh, []string{"1", "4096", "65535", "65536", "65537", "1000000", "1000000000000"}, []string{"1", "4096", "65535", "65536"}, []string{"65537", "1000000", "1000000000000"}})
-		ls = append(ls, c20Ladder{"width", sh, []string{"-1", "-4096", "-65536", "-65537", "-1000000"}, []string{"-1", "-4096", "-65536"}, []string{"-65537", "-1000000"}})
+		ls = append(ls, c20Ladder{"width", sh, []string{"1", "4096", "65535", "65536", "65537", "1000000", "1000000000000", "4294967296", "4294967297", "9223372036854775807", "9223372036854775808", "10000000000000000000", "18446744073609551616", "18446744073709551616", "18446744073709551626", "99999999999999999999999999"},
+			[]string{"1", "4096", "65535", "65536"}, []string{"65537", "1000000", "1000000000000", "4294967296", "4294967297", "9223372036854775807", "9223372036854775808", "10000000000000000000", "18446744073609551616", "18446744073709551616", "18446744073709551626", "99999999999999999999999999"}})
+		ls = append(ls, c20Ladder{"width", sh, []string{"-1", "-4096", "-65536", "-65537", "-1000000", "-4294967297", "-9223372036854775808", "-9223372036854775809", "-18446744073709551616", "-18446744073709551626"}, []string{"-1", "-4096", "-65536"}, []string{"-65537", "-1000000", "-4294967297", "-9223372036854775808", "-9223372036854775809", "-18446744073709551616", "-18446744073709551626"}})
 	}
 	nest := []string{"100", "1000", "9999", "10000", "10001", "100000"}
 	if thorough {
@@ -289,7 +296,7 @@ func contains(xs []string, x string) bool {
 
 func TestC20(t *testing.T) {
 	rec := start(t, "C20", "exploration",
-		"boundary ladders, each rung run through the binary in an isolated subprocess with rusage collected: recursion shapes {direct, mutual over 2 and 3 functions, through a match expression body, through a match block, through an argument of a method call, inside a for-in body, three runaway shapes without a base case} x depths {1, 10, 1000, 3000, 4000, 4090..4100, 5000, 10^4, 10^5}; array indices {0.5, 10^3, 10^5, 999999, 2^20-1, 2^20, 1048576.9, 2^20+1, 2^20+2, 2*10^6, 10^9, 10^18, 1e300 via input} x {write to a fresh / existing / nested array, growth in steps of 900000, ++ on a fresh array, index from the input, read}; printf widths {1, 4096, 65535, 65536, 65537, 10^6, 10^12 and negatives} x {s, f, v}; input nesting {100, 1000, 9999, 10000, 10001, 10^5 (10^6 thorough)} x {arrays, objects, mixed}. Each program prints `pre` first and the value afterwards. Oracle: accepted -> exit 0 and the right value (recursive sum, padded length, array length); refused -> exit 1 with a runtime / JSON diagnostic, `pre` on stdout, nothing after; never a signal, Go panic / fatal error, or peak RSS above 1 GiB; the magnitudes the statement names work (depth 1000, a million elements, width 65536, nesting 1000) resp. are refused (depth 10^4, index 2*10^6, width 65537, nesting 10^5); along each ladder the outcome switches at most once from accepted to refused. In-process: random points around each limit agree with the switch point found. Non-trivial: a rung within +-5 of a switch point or >= 10x beyond it. distinct = distinct rung.")
+		"boundary ladders, each rung run through the binary in an isolated subprocess with rusage collected: recursion shapes {direct, mutual over 2 and 3 functions, through a match expression body, through a match block, through an argument of a method call, inside a for-in body, three runaway shapes without a base case} x depths {1, 10, 1000, 3000, 4000, 4090..4100, 5000, 10^4, 10^5}; array indices {0.5, 10^3, 10^5, 999999, 2^20-1, 2^20, 1048576.9, 2^20+1, 2^20+2, 2*10^6, 10^9, 10^18, 1e300 via input} x {write to a fresh / existing / nested array, growth in steps of 900000, ++ on a fresh array, index from the input, read}; printf widths {1, 4096, 65535, 65536, 65537, 10^6, 10^12, 2^32, 2^32+1, 2^63-1, 2^63, 10^19, 2^64-10^8, 2^64, 2^64+10, 10^26 and negatives} x {s, f, v}; input nesting {100, 1000, 9999, 10000, 10001, 10^5 (10^6 thorough)} x {arrays, objects, mixed}. Each program prints `pre` first and the value afterwards. Oracle: accepted -> exit 0 and the right value (recursive sum, padded length, array length); refused -> exit 1 with a runtime / JSON diagnostic, `pre` on stdout, nothing after; never a signal, Go panic / fatal error, or peak RSS above 1 GiB; the magnitudes the statement names work (depth 1000, a million elements, width 65536, nesting 1000) resp. are refused (depth 10^4, index 2*10^6, width 65537, nesting 10^5); along each ladder the outcome switches at most once from accepted to refused. In-process: random points around each limit agree with the switch point found. Non-trivial: a rung within +-5 of a switch point or >= 10x beyond it. distinct = distinct rung.")
 	defer rec.Finish()
 	rec.Assume("a watchdog kill (90 s) is inconclusive, never a violation")
 	rec.Replayer("boundary", func(raw json.RawMessage) error {
